@@ -162,6 +162,8 @@ class SpawnBase(object):
     def _set_buffer(self, value):
         self._buffer = self.buffer_type()
         self._buffer.write(value)
+        self._before = self.buffer_type()
+        self._before.write(value)
 
     # This property is provided for backwards compatibility (self.buffer used
     # to be a string/bytes object)
